@@ -71,13 +71,22 @@ func scenC19(r *Run) {
 	// late: a consumer that is already polling for one topic subscribes to a second one while a producer publishes
 	// on that second topic without pause - a publish accepted the instant the broker knows the subscription must
 	// reach the consumer although its Subscribe call has not even returned yet
-	late := r.Plan(4) == 0
+	shape := r.Plan(4)
+	late := shape == 0
 	if late {
 		dense = true
 		if ntopics < 2 {
 			ntopics = 2
 		}
 	}
+	// multi: a consumer subscribed to three topics with dense traffic on all of them drops one in the middle: the
+	// poll answers in flight carry several topics, and only the dropped topic's messages may go with it
+	multi := shape == 1
+	if multi {
+		dense = true
+		ntopics = 3
+	}
+	r.Param("multi_topic_unsubscribe", multi)
 	r.Param("late_subscribe", late)
 	r.Param("dense", dense)
 	r.Param("level", level)
@@ -188,6 +197,10 @@ func scenC19(r *Run) {
 				after = r.PlanDur(0, time.Millisecond, 2*time.Millisecond, 5*time.Millisecond)
 			}
 			cops = append(cops, cop{after, topics[r.Plan(ntopics)], r.PlanBool(2)})
+		}
+		if multi {
+			initial = mine
+			cops = append([]cop{{r.PlanDur(5*time.Millisecond, 6*time.Millisecond, 7*time.Millisecond, 8*time.Millisecond), topics[r.Plan(2)], false}}, cops...)
 		}
 		if late {
 			initial = mine[:1]
@@ -331,6 +344,9 @@ func scenC19(r *Run) {
 			}
 			if late {
 				p.gap, p.topic = r.PlanDur(0, 0, 0, time.Millisecond), topics[1]
+			}
+			if multi {
+				p.gap = r.PlanDur(0, 0, 0, time.Millisecond)
 			}
 			switch r.Plan(3) {
 			case 0: // unicast
